@@ -4,6 +4,7 @@ package main
 
 import (
 	"fmt"
+	"go/ast"
 	"go/types"
 
 	"golang.org/x/tools/go/ssa"
@@ -84,6 +85,9 @@ func (u *Unit) cutLoop(st *State, fr *Frame, b *ssa.BasicBlock, lc *LoopContract
 	}
 	// cover: the invariants together with the state must be satisfiable (non-vacuity)
 	u.cover(st, fmt.Sprintf("%s#cover:loop%d", fnKey(u.fn), lc.Ord))
+	if lc.Cases != nil {
+		return u.splitCases(st, fr, b, lc)
+	}
 	return u.run(st, fr, b, 0)
 }
 
@@ -581,4 +585,40 @@ func (e *Engine) fnAllocates(fn *ssa.Function, depth int) bool {
 		}
 	}
 	return false
+}
+
+// splitCases continues from a loop head once per value of a small-range local (proof by cases): the
+// completeness of the case list is its own obligation.
+func (u *Unit) splitCases(st *State, fr *Frame, b *ssa.BasicBlock, lc *LoopContract) []Outcome {
+	env := u.invEnv(st, fr, b)
+	id, ok := lc.Cases.Expr.(*ast.Ident)
+	if !ok {
+		u.specError(fmt.Sprintf("loop %d cases", lc.Ord), fmt.Errorf("cases wants a local variable"))
+		return nil
+	}
+	obj := lc.Cases.Info.Uses[id]
+	cell, ok := env.cells[obj.Pos()]
+	if !ok {
+		u.specError(fmt.Sprintf("loop %d cases", lc.Ord), fmt.Errorf("%s is not a local variable", id.Name))
+		return nil
+	}
+	p := fr.regs[cell].(PtrV)
+	cur, ok := st.objs[p.Obj].(IntV)
+	if !ok || !cur.T.IsInt() {
+		u.specError(fmt.Sprintf("loop %d cases", lc.Ord), fmt.Errorf("%s is not an int", id.Name))
+		return nil
+	}
+	u.oblige(st, fmt.Sprintf("%s#loop%d.cases-complete", fnKey(u.fn), lc.Ord), "inv-establish", []string{"support"},
+		And(IntLe(IntK(int64(lc.CaseLo)), cur.T), IntLe(cur.T, IntK(int64(lc.CaseHi)))), lc.Cases.Text)
+	var outs []Outcome
+	for c := lc.CaseLo; c <= lc.CaseHi; c++ {
+		s2, f2 := st.clone(), fr.clone()
+		s2.assume(Eq(cur.T, IntK(int64(c))))
+		if !u.feasible(s2) {
+			continue
+		}
+		s2.objs[p.Obj] = IntV{IntK(int64(c)), true}
+		outs = append(outs, u.run(s2, f2, b, 0)...)
+	}
+	return outs
 }
